@@ -39,7 +39,7 @@ def legal_prefix(src):
         if body[0] == 'N':
             out.append(body)
         elif body[0] == 'E':
-            out.append('Eu' + body[1:])
+            out.append('Es0' if body[1:] == '0' else 'Eu' + body[1:])   # E0 = Error(nil), rendered s0
             break
         else:
             out.append('C')
